@@ -432,7 +432,7 @@ def run(ctx):
         ctx.flush()
     ctx.exhaustive = True
     ctx.notes.append(f"exhaustive: all {sum(lv ** k for k in range(1, L + 1))} profiles of length <= {L} over {lv} levels "
-                     "(validates model = code and the Fix1D hypothesis on that universe; not the proof)")
+                     "(validates model = code on that universe; the Fix1D contract itself is a theorem, fix1d_ok)")
     # 2. dem_adjust
     seen = set()
     ncase = (220 if quick else 4000) * esc
